@@ -145,11 +145,11 @@ Lemma decimal_agrees val ty args :
   agrees (Some (addDecimals val ty args)) (spec_str (bs "decimal") val args).
 Proof.
   unfold spec_str. eval_names. unfold addDecimals, looks_int.
-  destruct (negb (str_is_int val)); [reflexivity|].
   destruct args as [|a [|b [|c rest]]]; cbn [List.length Nat.ltb Nat.leb].
-  - reflexivity.
-  - destruct a; try exact I. reflexivity.
+  - destruct (negb (str_is_int val)); reflexivity.
+  - destruct a; try exact I. destruct (negb (str_is_int val)); reflexivity.
   - destruct a; try exact I. destruct b; try exact I.
+    destruct (negb (str_is_int val)); [reflexivity|].
     destruct (z <=? 0)%Z eqn:Hz; [reflexivity|].
     destruct (1000 <? z)%Z eqn:Hk; [exact I|].
     rewrite zeros_not_too_long by lia.
